@@ -510,8 +510,13 @@ class World:
                     return b._impl.idstr.split(".")
                 except DeletedObjectError:
                     return ["!deleted"]
-            bases.append([p, [bp(b) for b in s.bases]])
-            dbases.append([p, [bp(b) for b in s._direct_bases]])
+            def safe(fn):
+                try:
+                    return fn()
+                except Exception as e:      # the API itself fails: reported, judged by the spec
+                    return [["!" + type(e).__name__]]
+            bases.append([p, safe(lambda: [bp(b) for b in s.bases])])
+            dbases.append([p, safe(lambda: [bp(b) for b in s._direct_bases])])
             cs = {}
             for name, c in s.cells.items():
                 cs[name] = {"f": self.fid_of(c._impl), "cached": bool(c.is_cached),
@@ -533,7 +538,10 @@ class World:
             if full:
                 docs.append([p, s.doc or ""])
             span.append([p, {None: 0, False: 1, True: 2}[s._impl.allow_none]])
-            dirs.append([p, sorted(n for n in dir(s))])
+            try:
+                dirs.append([p, sorted(n for n in dir(s))])
+            except Exception as e:
+                dirs.append([p, ["!" + type(e).__name__]])
             for ch in s.named_spaces.values():
                 walk(ch)
         for s in model.spaces.values():
